@@ -57,6 +57,10 @@ def cells(tier):
             out.append(mk(op, 4, gap=None, timeout=T))
             out.append(mk(op, 4, k=2, gap=None, rname='multi', timeout=T))
         out.append(mk('EAItemSwap', 4, k=2, gap=None, timeout=T))
+    # IDs of one or two characters: one ID may be a prefix or suffix of another
+    for op, kw in (('roItemMoveMultiple', {'k': 2}), ('EAItemMove', {}), ('roItemDelete', {'k': 2}), ('roItemReplace', {}),
+                   ('EAItemSwap', {'k': 2}), ('roItemInsert', {})):
+        out.append(mk(op, 3, gap=None, idlen='1-2', rname='prefix-ids', timeout=T, **kw))
     # addressed story is the second one; story without slug / with leading paragraph
     for op in ('roItemMoveMultiple', 'EAItemMove', 'roItemInsert', 'roItemReplace', 'roItemDelete', 'EAItemDelete'):
         out.append(mk(op, 3, w=1, gap=None, rname='second-story', timeout=T))
